@@ -107,6 +107,33 @@ def flag_literals(test):
     return out
 
 
+def module_value(fi, e):
+    """The value expression of a module-level name assigned exactly once (else None)."""
+    if isinstance(e, ast.Name):
+        vals = fi.module.assigns.get(e.id, [])
+        if len(vals) == 1:
+            return vals[0]
+    return None
+
+
+def const_strings(fi, e):
+    """List of strings if e is (a module-level name for) a tuple/list of string literals, else None."""
+    v = module_value(fi, e) if isinstance(e, ast.Name) else e
+    if isinstance(v, (ast.Tuple, ast.List)) and v.elts and all(lib.str_const(x) is not None for x in v.elts):
+        return [x.value for x in v.elts]
+    return None
+
+
+def compiled_pattern(idx, fi, e, env=None):
+    """The pattern string if e is (a name for) re.compile(<literal>) without flags, else None."""
+    v = e
+    if isinstance(e, ast.Name):
+        v = (env or {}).get(e.id) or module_value(fi, e)
+    if isinstance(v, ast.Call) and idx.dotted_of(fi.module, v.func) == 're.compile' and len(v.args) == 1 and not v.keywords:
+        return lib.str_const(v.args[0])
+    return None
+
+
 def extract_pipeline(idx, fi):
     """Ordered list of Steps of clean_input, the working variable's initial expression, and the input parameter."""
     fn = fi.node
@@ -138,6 +165,15 @@ def extract_pipeline(idx, fi):
                 if p is None or r is None:
                     raise AnalysisError('re.sub with a non-literal pattern/replacement: %s' % short(e))
                 return base + [Step(guards, 'sub', (p, r), e)]
+            if isinstance(e.func, ast.Attribute) and e.func.attr == 'sub' and len(e.args) == 2 and not e.keywords \
+                    and compiled_pattern(idx, fi, e.func.value, lib.local_env(fn)) is not None:
+                base = transforms_of(e.args[1], guards)
+                if base is None:
+                    return None
+                rr = lib.str_const(e.args[0])
+                if rr is None:
+                    raise AnalysisError('non-literal replacement in %s' % short(e))
+                return base + [Step(guards, 'sub', (compiled_pattern(idx, fi, e.func.value, lib.local_env(fn)), rr), e)]
             if isinstance(e.func, ast.Attribute):
                 base = transforms_of(e.func.value, guards)
                 if base is None:
@@ -163,6 +199,12 @@ def extract_pipeline(idx, fi):
             raise AnalysisError('expression over the working string not recognised: %s' % short(e))
         return None
 
+    def transforms_of_safe(e, guards):
+        try:
+            return transforms_of(e, guards)
+        except AnalysisError:
+            return None
+
     def walk(stmts, guards):
         for s in stmts:
             if state['returned']:
@@ -183,6 +225,12 @@ def extract_pipeline(idx, fi):
                         raise AnalysisError('working string overwritten by `%s`' % short(s.value))
                     steps.extend(tr)
                     continue
+                if X.is_name(s.value, state['w']) or (transforms_of_safe(s.value, guards) is not None):
+                    # the pipeline continues under another name
+                    tr = transforms_of(s.value, guards)
+                    steps.extend(tr)
+                    state['w'] = t
+                    continue
                 if touches(s.value):
                     raise AnalysisError('working string copied into `%s`' % t)
                 continue
@@ -201,6 +249,17 @@ def extract_pipeline(idx, fi):
                         continue
                     walk(s.orelse, guards + [(lits[0][0], not lits[0][1])])
                 continue
+            if isinstance(s, ast.For) and state['w'] is not None and touches(s):
+                w = state['w']
+                toks = const_strings(fi, s.iter)
+                body = [x for x in s.body if not isinstance(x, ast.Expr)]
+                if toks is not None and isinstance(s.target, ast.Name) and len(body) == 1 and not s.orelse:
+                    b = X.m(X.spat("%s = %s.replace(%s, _R)" % (w, w, s.target.id)), body[0])
+                    if b is not None and lib.str_const(b['_R']) is not None:
+                        for tok in toks:
+                            steps.append(Step(guards, 'replace', (tok, b['_R'].value), body[0]))
+                        continue
+                raise AnalysisError('loop over the working string not recognised: for %s in %s' % (short(s.target), short(s.iter)))
             if isinstance(s, ast.While):
                 w = state['w']
                 if w is not None and X.m("'  ' in %s" % w, s.test) is not None and len(s.body) == 1 and \
@@ -359,7 +418,7 @@ def d1_pipeline(ctx, idx):
         for sid, guard, text in REFERENCE:
             construct = 'clean_input: %s' % text
             if sid not in found:
-                r.violation(construct, 'the step is missing from the pipeline', fi.loc, expected=text)
+                X.absent(r, construct, 'the step is missing from the pipeline', fi.loc, expected=text)
                 continue
             for i, st in found[sid]:
                 g = st.guards
@@ -553,8 +612,9 @@ def d3_construction(ctx, idx):
         if n == 0:
             raise AnalysisError("no regular-expression test over config['validation_pattern'] found in check_response")
         if seen and sorted(set(seen)) != ['E', 'S']:
-            r.violation('check_response: validation covers answer and submission',
-                        'the validation pattern is applied to %s only' % ('the submission' if 'S' in seen else 'the answer'), fi.loc)
+            X.absent(r, 'check_response: validation covers answer and submission',
+                     'the validation pattern is applied to %s only' % ('the submission' if 'S' in seen else 'the answer'), fi.loc,
+                     understood=False)
 
 
 # ----------------------------------------------------------------------------- D3/D4 (decision)
